@@ -1,6 +1,11 @@
 import Proofs.C10
 import Proofs.Lemmas.C10Lift
 import Proofs.Lemmas.F64Exact
+import Proofs.Lemmas.F64Text
+import Proofs.Lemmas.F64Shortest
+import Proofs.Lemmas.F64Arith
+import Proofs.Lemmas.F64Dec
+import Proofs.Lemmas.F64Sign
 #print axioms C10.fmtFixed_half_ulp
 #print axioms C10.fmtFixed_mono
 #print axioms C10.boundary_table
@@ -20,3 +25,22 @@ import Proofs.Lemmas.F64Exact
 #print axioms F64.val_mono
 #print axioms F64.roundMag_exact
 #print axioms F64.mul_one
+#print axioms C10.printedK_abs
+#print axioms C10.row_lift_signed
+#print axioms C10.row_lift_lower_signed
+#print axioms C10.fmtFixed_neg
+#print axioms C10.format_neg
+#print axioms F64.lt_iff_sval
+#print axioms F64.roundQ_mono
+#print axioms F64.roundQ_exact
+#print axioms F64.add_eq
+#print axioms F64.add_comm
+#print axioms F64.mul_eq
+#print axioms F64.div_eq_roundQ
+#print axioms F64.ofDecimal_eq
+#print axioms F64.parse_of_within_half_ulp
+#print axioms F64.Text.parse_fmtFixed
+#print axioms F64.Text.fmtFixed_reads_back
+#print axioms F64.shortest_reads_back
+#print axioms F64.exists_isShortest
+#print axioms F64.shortestLen_le_17
